@@ -250,6 +250,10 @@ class FuncAnalysis(ast.NodeVisitor):
                 return (F, base[1])
             if f.attr in M_VIEW:
                 return (base[1], base[1])
+            cp = self._kw(c, "copy")
+            if cp is not None and not (isinstance(cp, ast.Constant) and cp.value is True):
+                # x.astype(dtype, copy=False) and friends may return x itself
+                return (base[1], base[1])
             if f.attr in M_FRESH:
                 return (F, F)
             if isinstance(f.value, ast.Call) and isinstance(f.value.func, ast.Name) and f.value.func.id == "super":
